@@ -1,8 +1,9 @@
 """C05 - revent: delivery order, halting, unsubscription (specs/revent/Revent.tla).
 
-1. TLC model-checks Revent.tla (invariants + action properties) on four
+1. TLC model-checks Revent.tla (invariants + action properties) on five
    configurations (priorities/re-entrancy, removal/one-shot, weak owners /
-   autoBind, errors/undeclared types), with the vacuity guard.
+   autoBind, errors/undeclared types, bulk removal = removeListeners(list) in
+   all element forms / clearHandlers()), with the vacuity guard.
 2. spec -> code: the same runs export one behaviour per transition of the
    state graph; each is replayed command by command on a real EventMixin
    source (harness/adapters_c05.py stops inside every real handler
@@ -26,7 +27,7 @@ FAMILY = {
   "thorough": [("orderM", ["A"]), ("removeM", ["A", "B"]), ("weakM", ["A"]), ("errM", ["A"]),
                ("bulkM", ["A", "B"])],
 }
-BIG_MC = ["orderL", "removeL"]          # thorough: property only, no export
+BIG_MC = ["orderL", "removeL", "bulkL"] # thorough: property only, no export
 COVER = {
   "order": ["Subscribe", "RaiseBegin", "Return", "RaiseSimple"],
   "remove": ["Subscribe", "Unsubscribe", "RaiseBegin", "Return", "RaiseSimple"],
@@ -72,8 +73,11 @@ def run(ctx):
     "handler ran is not observable and is resolved by TLC over all consistent spec states",
     "owner death is CPython reference counting: DropOwner is only issued when no strong "
     "reference can exist (spec CanDie)",
-    "event.halt set by a handler that returns None, arbitrary non-Event values, "
-    "_eventMixin_events = True sources and clearHandlers() are not modelled",
+    "removeListeners(list) is explored exhaustively for lists of 2 elements (every mix of "
+    "handler / eid / (type, eid), live, stale, never-issued and duplicate entries, idle and "
+    "from inside a handler); longer lists (0..4) only in the random traces",
+    "event.halt set by a handler that returns None, arbitrary non-Event values and "
+    "_eventMixin_events = True sources are not modelled",
   ]
   # ---- 1. the property on the model (+ export in the same run)
   jobs = [("MX_%s.cfg" % n if quick else "EX_%s.cfg" % n,
